@@ -131,3 +131,15 @@ P('C13', 'other',
   '14:30 and 21:00 are unconditional clock events, the clock covers the business days of the same unmodified range, and the session builds '
   'clock and schedule from the same (start_dt, end_dt) through a 4-row table. Not decided: pandas calendar semantics (completeness of dates).')
 TECHNIQUE['C13'] = 'static analysis: frequency/argument slot matching on symbolic terms, decision tables for guards, constant agreement between schedule and clock'
+
+P('C14', 'other',
+  'Static rules. S1 the body of BacktestTradingSession.run\'s event loop is evaluated as a complete decision table (signals configured x '
+  'event type x burn-in absent/before/at/after x schedule membership x print flag, 128 valuations): per event broker.update once and first; '
+  'signals.update iff signals and close; the trading system iff scheduled and not before burn-in (>= inclusive); an equity point iff close '
+  'and not before burn-in; every action at the event\'s own time; the print flag changes nothing. The broker marks every held asset of every '
+  'portfolio at the mid price of the update time. S2 who may trade: submit_order only from ExecutionHandler.__call__, only from '
+  'QuantTradingSystem.__call__, only from run. S3 the exchange predicate at the clock\'s own instants: 00:00 closed, 14:30 open, 21:00 closed, '
+  '23:59 closed. S4 a rebalance fires iff dt is a member of the schedule, written once from the rebalancer, unfiltered. S5 equity point = (dt, '
+  'account total equity), allocation table re-indexed onto the equity dates with forward fill and cut at burn-in, one dated record per '
+  'construction call. Not decided: the exact set of dates (C12/C13 calendar clauses).')
+TECHNIQUE['C14'] = 'static analysis: exhaustive decision table of the event loop, who-may-call chain, constant-evaluated exchange predicate, output-pipeline slot rules'
